@@ -612,6 +612,8 @@ func replaySeq(c *fw.Ctx, k kase) {
 		r.seqPure(keys, true)
 	case "dirty":
 		r.dirtyDestination(keys, true)
+	case "entry":
+		r.entryPoints(keys)
 	case "sweep":
 		r.keySweep(keys, buildHonest(keys, false))
 	}
